@@ -20,8 +20,16 @@ type Clause struct {
 	// Only for ensures: restrict to a kind of exit ("" = normal return)
 }
 
+type GhostUpdate struct {
+	On     string // "call" | "recv"
+	Target string // callee name / channel field
+	Ghost  string
+	Expr   *SX
+}
+
 type LoopSpec struct {
 	Ordinal    int
+	Assumes    []*Clause // trusted facts assumed at the loop head (listed as assumptions)
 	Invariants []*Clause
 	Decreases  *SX
 }
@@ -59,6 +67,7 @@ type Contract struct {
 	MayPanic bool // extern: callee may panic unless requires hold (informational)
 	Frame    bool // func: check ghost frame (default true)
 	Overflow bool
+	Ghosts   []*GhostUpdate // ghost code attached to events inside this function
 	Fresh    []string // results that are newly allocated objects (or nil)
 	Wraps    bool // integer arithmetic of this function wraps (no overflow obligations)
 	FsPath   *SX    // extern: expression (over formals) giving the file-system path this primitive acts on
@@ -348,6 +357,14 @@ func (c *Contracts) loadContract(file string, f *SX) error {
 			ct.Wraps = true
 		case "fresh":
 			ct.Fresh = append(ct.Fresh, atoms(e)[1:]...)
+		case "oncall", "onrecv":
+			// (oncall "callee" (set ghost expr)...) / (onrecv "chanfield" (set ghost expr)...)
+			for _, u := range e.List[2:] {
+				if u.Head() != "set" || len(u.List) != 3 {
+					return errAt(file, u, "ghost update must be (set ghost expr)")
+				}
+				ct.Ghosts = append(ct.Ghosts, &GhostUpdate{On: strings.TrimPrefix(e.Head(), "on"), Target: e.List[1].Atom, Ghost: u.List[1].Atom, Expr: u.List[2]})
+			}
 		case "fspath":
 			ct.FsPath = e.List[1]
 			if len(e.List) > 2 {
@@ -366,6 +383,12 @@ func (c *Contracts) loadContract(file string, f *SX) error {
 					ls.Invariants = append(ls.Invariants, cl)
 				case "decreases":
 					ls.Decreases = le.List[1]
+				case "assume":
+					cl, err := parseClause(file, "assume", le)
+					if err != nil {
+						return err
+					}
+					ls.Assumes = append(ls.Assumes, cl)
 				default:
 					return errAt(file, le, "unknown loop clause %q", le.Head())
 				}
